@@ -4,6 +4,7 @@ Only statements and their proofs from helper lemmas; helper lemmas live in Proof
 -/
 import DimModel.Proofs.C01
 import DimModel.Proofs.C01Take
+import DimModel.Proofs.C01Nd
 namespace DimModel
 open Lib
 
@@ -1052,5 +1053,136 @@ example : (Lib.take exArr (.tuple exTolIx) exTolCfg).toOption.map
     (by simp [exTolIx, exArr, Spec.tolDim, Spec.tolPositions, Spec.positions, fullIx, Kind.isNumeric,
           exTol_4, exTol_0, Except.toOption]; rfl)]
   decide
+
+/-! ### a boolean array of the array's shape as index (`a[mask]`, `.loc[mask]`, `take(mask, ...)`; mirror `Lib.takeMaskNd`) -/
+
+/-- every accessor and configuration reads a rank > 1 boolean array the same way: `compress` -/
+theorem take_mask_nd_any_cfg {α : Type} (a : DimArray α) (mask : NDArr Bool) (cfg cfg' : IndexCfg)
+    (h : 1 < mask.shape.length) : takeMaskNd a mask cfg = takeMaskNd a mask cfg' ∧ takeMaskNd a mask cfg = compressNd a mask := by
+  unfold takeMaskNd
+  simp [h]
+
+/-- **full-shape boolean read, end to end (rank ≥ 2).** With a boolean array of the array's shape, in every spelling / mode /
+tolerance, the read succeeds and returns the 1-D array over an axis of label TUPLES; `sel`, the list of result cells, is the
+row-major enumeration of all indices of the shape (`allIdx`, which has `j` at offset `ravel shape j`: `allIdx_getElem?`)
+filtered by the mask - so it holds exactly the in-range indices where the mask is true, each once, in row-major order - and
+result position `k` holds the input cell at `sel[k]` together with its tuple of labels: one component per dimension,
+component `i` being the label of axis `i` at the cell's coordinate along it. Metadata and dtype kind are kept.
+(The C01-shaped reading of C17's `compressNd_spec` / `_complete` / `_coord`, for the read accessors; proved from the same
+equation `compressNd_eq_tuple`, restated in Proofs/C01Nd.lean because Props/C17 sits above this file in the import graph.) -/
+theorem take_mask_nd_spec {α : Type} (a : DimArray α) (mask : NDArr Bool) (cfg : IndexCfg) (hwf : a.WF) (hrank : 2 ≤ a.ndim)
+    (hshape : mask.shape = a.vals.shape) :
+    ∃ (t : TupleArr α) (sel : List (List Nat)), takeMaskNd a mask cfg = .ok (.inr t) ∧
+      sel = (allIdx a.vals.shape).filter mask.get ∧ sel.Sublist (allIdx a.vals.shape) ∧ sel.Nodup ∧
+      (∀ j, j ∈ sel ↔ (InRange a.vals.shape j ∧ mask.get j = true)) ∧
+      t.name = ",".intercalate a.dims ∧ t.vkind = a.vkind ∧ t.attrs = a.attrs ∧
+      t.cells.length = sel.length ∧ t.coords.length = sel.length ∧
+      ∀ (k : Nat) (j : List Nat), sel[k]? = some j →
+        t.cells[k]? = some (a.vals.get j) ∧
+        ∃ c, t.coords[k]? = some c ∧ c.length = a.axes.length ∧
+          ∀ (i : Nat) (ax : Axis) (p : Nat), a.axes[i]? = some ax → j[i]? = some p →
+            c[i]? = some (ax.labels.getD p Label.none) := by
+  have hnd : a.vals.shape.length = a.ndim := by rw [hwf.1, List.length_map]; rfl
+  have hm : 1 < mask.shape.length := by rw [hshape, hnd]; omega
+  have hne : a.ndim ≠ 1 := by omega
+  have hEq := C01Nd.compressNd_eq_tuple a mask hne hshape hnd
+  rw [← (take_mask_nd_any_cfg a mask cfg cfg hm).2] at hEq
+  refine ⟨_, (allIdx a.vals.shape).filter mask.get, hEq, rfl, List.filter_sublist,
+    List.Nodup.sublist List.filter_sublist (C01Nd.allIdx_nodup _), ?_, rfl, rfl, rfl, by simp, by simp, ?_⟩
+  · intro j
+    constructor
+    · intro h
+      rw [List.mem_filter] at h
+      exact ⟨C01Nd.mem_allIdx _ _ h.1, h.2⟩
+    · intro h
+      exact List.mem_filter.mpr ⟨C01Nd.inRange_mem_allIdx _ _ h.1, h.2⟩
+  · intro k j hk
+    have hmem := List.mem_of_getElem? hk
+    rw [List.mem_filter] at hmem
+    have hj := C01Nd.mem_allIdx _ _ hmem.1
+    refine ⟨by simp only [List.getElem?_map, hk, Option.map_some], coordLabels a.axes j,
+      by simp only [List.getElem?_map, hk, Option.map_some], ?_⟩
+    refine ⟨C01Nd.coordLabels_length _ _ ?_, fun i ax p => C01Nd.coordLabels_getElem? _ _ i ax p⟩
+    rw [C01Nd.inRange_length _ _ hj, hwf.1, List.length_map]
+
+/-- a boolean array of another shape is refused (never a silent mis-selection): another rank is a ValueError, the right rank
+with another shape an IndexError -/
+theorem take_mask_nd_refuses {α : Type} (a : DimArray α) (mask : NDArr Bool) (cfg : IndexCfg)
+    (h : 1 < mask.shape.length) :
+    (mask.shape.length ≠ a.ndim → takeMaskNd a mask cfg = .error .value) ∧
+    (mask.shape.length = a.ndim → mask.shape ≠ a.vals.shape → takeMaskNd a mask cfg = .error .index) := by
+  rw [(take_mask_nd_any_cfg a mask cfg cfg h).2]
+  exact ⟨C01Nd.compressNd_err_rank a mask, C01Nd.compressNd_err_shape a mask⟩
+
+/-- the hypothesis `2 ≤ ndim` of `take_mask_nd_spec` is needed: a rank-1 boolean array is the ordinary 1-D mask and the
+result keeps the plain axis (no tuples) -/
+theorem take_mask_nd_rank1_counterexample :
+    let a : DimArray Nat := { axes := [{ name := "x", labels := [.num 1, .num 2], kind := .i }],
+                              vals := { shape := [2], get := fun j => j.getD 0 0 } }
+    ∀ cfg t, takeMaskNd a { shape := [2], get := fun _ => true } cfg ≠ .ok (.inr t) := by
+  intro a cfg t h
+  unfold takeMaskNd at h
+  simp only [List.length_singleton, Nat.lt_irrefl, if_false] at h
+  cases h' : take a (.tuple [.mask (maskBits { shape := [2], get := fun _ => true })]) cfg <;> rw [h'] at h <;> cases h
+
+/-- a 3 x 2 array: x = [2, 0, 1], y = ["b", "a"], cells 10 .. 60 in row-major order -/
+def exNd : DimArray Nat :=
+  { axes := [{ name := "x", labels := [.num 2, .num 0, .num 1], kind := .i },
+             { name := "y", labels := [.str "b", .str "a"], kind := .O }],
+    vals := { shape := [3, 2], get := fun j => 10 * (2 * j.getD 0 0 + j.getD 1 0 + 1) } }
+
+/-- `take_mask_nd_spec` on it: `.loc[mask]` with the mask true at (0,0) and (1,1) returns the cells 10 and 40 with the tuple
+labels (2, "b") and (0, "a") -/
+example : ∃ t, takeMaskNd exNd { shape := [3, 2], get := fun j => j == [0, 0] || j == [1, 1] }
+      { indexing := some .label } = .ok (.inr t) ∧
+    t.name = "x,y" ∧ t.cells = [10, 40] ∧ t.coords = [[.num 2, .str "b"], [.num 0, .str "a"]] := by
+  have hEq := C01Nd.compressNd_eq_tuple exNd { shape := [3, 2], get := fun j => j == [0, 0] || j == [1, 1] } (by decide) rfl rfl
+  rw [← (take_mask_nd_any_cfg exNd _ { indexing := some .label } {} (by decide)).2] at hEq
+  refine ⟨_, hEq, by decide, ?_, ?_⟩ <;> rfl
+
+/-! ### an `Axes` object as index (`a[other.axes]`, `a.take(axes)`; mirror `Lib.takeAxesIndex`) -/
+
+/-- **an Axes object as index = the tuple of its label arrays.** When every held axis names a dimension of the array, the read
+is the read by the tuple that has, on each dimension the object holds an axis for, the LIST of that axis' labels (of the last
+such axis if there are several) and a full slice on the others (`Spec.dictKey`; see `dictKey_mem` / `dictKey_not_mem`) - in
+every mode and configuration, errors included; the order of the axes inside the object plays no role. -/
+theorem take_axes_index_eq_labels {α : Type} (a : DimArray α) (idx : List Axis) (cfg : IndexCfg)
+    (hin : ∀ ax ∈ idx, ax.name ∈ a.dims) :
+    takeAxesIndex a idx cfg =
+      Lib.take a (.tuple (Spec.dictKey a.dims (idx.map fun ax => (ax.name, Ix.list ax.labels)))) cfg := by
+  unfold takeAxesIndex axesIndex
+  rw [take_dict_eq_tuple a _ (idx.map (·.name)) cfg (by simp)]
+  · congr 3
+    simp [List.zip_map', List.map_map, Function.comp_def]
+  · intro i h
+    simp only [List.getElem_map]
+    refine ⟨rfl, hin _ (List.getElem_mem _)⟩
+
+/-- with axes of distinct names: dimension `j` is read at the labels of the held axis of that name, in the order the axis
+lists them (repeats allowed) ... -/
+theorem take_axes_index_dim {α : Type} (a : DimArray α) (idx : List Axis) (hn : (idx.map (·.name)).Nodup)
+    (j : Nat) (hj : j < a.dims.length) (ax : Axis) (hax : ax ∈ idx) (hname : ax.name = a.dims[j]) :
+    (Spec.dictKey a.dims (idx.map fun ax => (ax.name, Ix.list ax.labels)))[j]'(by simpa [Spec.dictKey] using hj) =
+      .list ax.labels := by
+  apply dictKey_mem
+  · simpa [List.map_map, Function.comp_def] using hn
+  · rw [← hname]
+    exact List.mem_map.mpr ⟨ax, hax, rfl⟩
+
+/-- ... and an axis naming no dimension of the array is an error (ValueError), whatever else the object holds -/
+theorem take_axes_index_badname {α : Type} (a : DimArray α) (idx : List Axis) (cfg : IndexCfg)
+    (hbad : ∃ ax ∈ idx, ax.name ∉ a.dims) :
+    ∃ e, takeAxesIndex a idx cfg = .error e ∧ (e = .value ∨ e = .index) := by
+  unfold takeAxesIndex axesIndex
+  apply take_dict_badkey
+  obtain ⟨ax, hax, hnot⟩ := hbad
+  refine ⟨(.name ax.name, .list ax.labels), List.mem_map.mpr ⟨ax, hax, rfl⟩, ?_⟩
+  intro d hd
+  exact hnot (hd.1 ▸ hd.2)
+
+/-- `take_axes_index_eq_labels` on the 2 x 3 example: the Axes object holding y = [2, 3, 2] reads like `a[:, [2, 3, 2]]` -/
+example : takeAxesIndex exArr [{ name := "y", labels := [.num 2, .num 3, .num 2], kind := .i }] {} =
+    Lib.take exArr (.tuple [fullIx, .list [.num 2, .num 3, .num 2]]) {} :=
+  take_axes_index_eq_labels exArr _ {} (by decide)
 
 end DimModel
